@@ -20,9 +20,10 @@ package closure
 // identifier, call, subscript and member terms are wrapped by a recorder that
 // captures the term's own closure and its own debug column.
 //@ func wrapForDebug
-//@   props C19
+//@   props C19 C03
 //@   requires cl != nil
 //@   modifies
+//@   ensures #nonnil result != nil
 //@   ensures #literals (typeis(expr, *ast.StrExpr) || typeis(expr, *ast.NumExpr) || typeis(expr, *ast.TimeExpr) || typeis(expr, *ast.BoolExpr) || typeis(expr, *ast.ListExpr) || typeis(expr, *ast.MapExpr) || typeis(expr, *ast.ObjExpr)) ==> result == cl
 //@   ensures #ident typeis(expr, *ast.IdentExpr) ==> captured(result, cl) == cl && captured(result, col) == expr.(*ast.IdentExpr).Col
 //@   ensures #call typeis(expr, *ast.CallExpr) ==> captured(result, cl) == cl && captured(result, col) == expr.(*ast.CallExpr).DBGCol
@@ -41,18 +42,22 @@ package closure
 // closures obtained are stored, in that order, in the closure returned.
 //@ func compile
 //@   props C03 C06
+//@   requires env1 != nil
 //@   modifies
 //@   records compile0 wrapForDebug
+//@   ensures #nonnil result != nil
 //@   ensures #plain !dbg ==> scalls() == 1 && scall(0, compile0, expr, env1, dbg) && result == sret(0, compile0)
 //@   ensures #debug dbg ==> scalls() == 2 && scall(0, compile0, expr, env1, dbg) && scall(1, wrapForDebug, expr, sret(0, compile0)) && result == sret(1, wrapForDebug)
 
 //@ func compile0
 //@   props C03 C06
+//@   requires env1 != nil
 //@   modifies
 //@   records compile staticDispatch dynamicDispatch
 //@   loop 1 invariant rangeindex + 1 <= len(els) && same(els, expr.(*ast.ListExpr).Elems) && len(cs) == sz && sz == len(els) && isfresh(cs) && scalls() == rangeindex + 1 && forall(j, 0, rangeindex + 1, scall(j, compile, els[j], env1, dbg) && cs[j] == sret(j, compile))
 //@   loop 2 invariant rangeindex + 1 <= len(expr.(*ast.MapExpr).Pairs) && len(cs) == sz && sz == len(expr.(*ast.MapExpr).Pairs) && isfresh(cs) && scalls() == 2 * (rangeindex + 1) && forall(j, 0, rangeindex + 1, scall(2 * j, compile, expr.(*ast.MapExpr).Pairs[j].Key, env1, dbg) && scall(2 * j + 1, compile, expr.(*ast.MapExpr).Pairs[j].Val, env1, dbg) && cs[j].k == sret(2 * j, compile) && cs[j].v == sret(2 * j + 1, compile))
 //@   loop 3 invariant rangeindex + 1 <= len(expr.(*ast.ObjExpr).Fields) && len(cs) == sz && sz == len(expr.(*ast.ObjExpr).Fields) && isfresh(cs) && scalls() == rangeindex + 1 && forall(j, 0, rangeindex + 1, scall(j, compile, expr.(*ast.ObjExpr).Fields[j].Val, env1, dbg) && cs[j] == sret(j, compile))
+//@   ensures #nonnil result != nil
 //@   ensures #leaf typeis(expr, *ast.StrExpr) || typeis(expr, *ast.NumExpr) || typeis(expr, *ast.BoolExpr) || typeis(expr, *ast.TimeExpr) || typeis(expr, *ast.IdentExpr) ==> scalls() == 0
 //@   ensures #list typeis(expr, *ast.ListExpr) && len(expr.(*ast.ListExpr).Elems) > 0 ==> scalls() == len(expr.(*ast.ListExpr).Elems) && len(captured(result, cs)) == len(expr.(*ast.ListExpr).Elems) && captured(result, sz) == len(expr.(*ast.ListExpr).Elems) && forall(j, 0, len(expr.(*ast.ListExpr).Elems), scall(j, compile, expr.(*ast.ListExpr).Elems[j], env1, dbg) && captured(result, cs)[j] == sret(j, compile))
 //@   ensures #map typeis(expr, *ast.MapExpr) && len(expr.(*ast.MapExpr).Pairs) > 0 ==> scalls() == 2 * len(expr.(*ast.MapExpr).Pairs) && len(captured(result, cs)) == len(expr.(*ast.MapExpr).Pairs) && forall(j, 0, len(expr.(*ast.MapExpr).Pairs), scall(2 * j, compile, expr.(*ast.MapExpr).Pairs[j].Key, env1, dbg) && scall(2 * j + 1, compile, expr.(*ast.MapExpr).Pairs[j].Val, env1, dbg) && captured(result, cs)[j].k == sret(2 * j, compile) && captured(result, cs)[j].v == sret(2 * j + 1, compile))
@@ -63,8 +68,8 @@ package closure
 
 //@ func compileArgs
 //@   props C03 C06
+//@   requires env1 != nil
 //@   modifies
-//@   fresh
 //@   records compile
 //@   loop 1 invariant rangeindex + 1 <= len(call.Args) && len(cs) == len(call.Args) && isfresh(cs) && scalls() == rangeindex + 1 && forall(j, 0, rangeindex + 1, scall(j, compile, call.Args[j], env1, dbg) && cs[j] == sret(j, compile))
 //@   ensures #args len(result) == len(call.Args) && scalls() == len(call.Args) && forall(j, 0, len(call.Args), scall(j, compile, call.Args[j], env1, dbg) && result[j] == sret(j, compile))
@@ -72,7 +77,7 @@ package closure
 //@ func makeCallClosure
 //@   props C03 C06
 //@   modifies
-//@   ensures #captures captured(result, fun) == fun && same(captured(result, argCs), argCs)
+//@   ensures #captures result != nil && captured(result, fun) == fun && same(captured(result, argCs), argCs)
 
 //@ func staticDispatch
 //@   props C03 C06
@@ -80,12 +85,15 @@ package closure
 //@   modifies
 //@   records val.(*Env).MustGetMonoFun val.(*Env).MustGetPolyFuns compileArgs makeCallClosure
 //@   ensures #lookup ite(call.Index < 0, scall(0, MustGetMonoFun, env1, call.Resolved), scall(0, MustGetPolyFuns, env1, call.Resolved))
+//@   ensures #nonnil result != nil
 //@   ensures #call scalls() == 3 && scall(1, compileArgs, env1, call, dbg) && scall(2, makeCallClosure, ite(call.Index < 0, sret(0, MustGetMonoFun), sret(0, MustGetPolyFuns)[call.Index]), sret(1, compileArgs)) && result == sret(2, makeCallClosure)
 
 //@ func dynamicDispatch
 //@   props C03 C06
+//@   requires env1 != nil
 //@   modifies
 //@   records compile compileArgs
+//@   ensures #nonnil result != nil
 //@   ensures #parts scalls() == 2 && scall(0, compile, call.Callee, env1, dbg) && scall(1, compileArgs, env1, call, dbg) && captured(result, cc) == sret(0, compile) && same(captured(result, cs), sret(1, compileArgs))
 
 // ---- closure compiler: run time (C06, C03) ---------------------------------
@@ -143,8 +151,11 @@ package closure
 //@   modifies all
 //@   preserves argCs[*]
 //@   records dyn thunkify val.(*FunVal).Call
-//@   loop 1 invariant rangeindex + 1 <= len(argCs) && scalls() == rangeindex + 1 && forall(j, 0, rangeindex + 1, ite(fun.Lazy, scall(j, thunkify, argCs[j], env), scall(j, dyn, argCs[j], env)))
-//@   ensures #order scalls() == len(argCs) + 1 && forall(j, 0, len(argCs), ite(fun.Lazy, scall(j, thunkify, argCs[j], env, fun.Type.Fun().Param[j]), scall(j, dyn, argCs[j], env))) && scall(len(argCs), Call, fun) && result == sret(len(argCs), Call)
+//@   loop 1 invariant #a rangeindex + 1 <= len(argCs) && scalls() == rangeindex + 1
+//@   loop 1 invariant #b forall(j, 0, rangeindex + 1, ite(fun.Lazy, scall(j, thunkify, argCs[j], env), scall(j, dyn, argCs[j], env)))
+//@   ensures #count scalls() == len(argCs) + 1
+//@   ensures #order forall(j, 0, len(argCs), ite(fun.Lazy, scall(j, thunkify, argCs[j], env), scall(j, dyn, argCs[j], env)))
+//@   ensures #invoke scall(len(argCs), Call, fun) && result == sret(len(argCs), Call)
 
 //@ closure thunkify$1
 //@   props C06 C03
